@@ -211,7 +211,11 @@ func (x *Exec) invoke(fr *Frame, st *State, site ssa.Instruction, cc *ssa.CallCo
 	}
 	iname := typeKey(cc.Value.Type()) + "." + cc.Method.Name()
 	sig := cc.Signature()
-	if c := x.cs.forIface(iname, cc.Method); c != nil {
+	c := x.cs.forIface(iname, cc.Method)
+	if c == nil {
+		c = x.cs.forIface(cc.Method.FullName(), cc.Method)
+	}
+	if c != nil {
 		x.applyContract(fr, st, site, "iface "+iname, c, sig, nil, append([]Val{recv}, args...), nil, k)
 		return
 	}
@@ -444,12 +448,6 @@ func (x *Exec) applyContract(fr *Frame, st *State, site ssa.Instruction, cname s
 		}
 		x.loopFrameAll(fr, st, site.Pos())
 	}
-	for _, g := range c.GhostUpdates {
-		if err := ce.ghostUpdate(g); err != nil {
-			x.fail("contract %s ghost %q: %v", cname, g.Text, err)
-			return
-		}
-	}
 	rt := resultType(sig)
 	if c.MayPanic {
 		st2 := st.clone()
@@ -464,6 +462,12 @@ func (x *Exec) applyContract(fr *Frame, st *State, site ssa.Instruction, cname s
 	x.assumeWF(st, res)
 	x.bindResults(env, c, sig, res)
 	ce2 := &CEnv{x: x, st: st, old: pre, vars: env, pkg: c.Pkg, fr: fr, entryAllocW: pre.allocW}
+	for _, g := range c.GhostUpdates {
+		if err := ce2.ghostUpdate(g); err != nil {
+			x.fail("contract %s ghost %q: %v", cname, g.Text, err)
+			return
+		}
+	}
 	for _, e := range c.Ensures {
 		t, err := ce2.evalBool(e)
 		if err != nil {
